@@ -9,6 +9,10 @@ import NeoModel.Proofs.CodecPubKey
 import NeoModel.Proofs.CodecNep2
 import NeoModel.Proofs.CodecMsSort
 import NeoModel.Proofs.CodecScript
+import NeoModel.Proofs.CodecMsDecode
+import NeoModel.Proofs.CodecKeysMisc
+import NeoModel.Proofs.CodecFixedInv
+import NeoModel.Proofs.CodecUint
 namespace NeoModel.Codec
 open NeoModel.Generated
 
@@ -228,5 +232,258 @@ theorem go_checkIntegerSize_eq (v : Int) :
 theorem go_honestNodeCount_eq (n : Nat) :
     GoFuncs.defaultHonestNodeCount (n : Int) = defaultHonest n ∧ GoFuncs.majorityHonestNodeCount (n : Int) = majorityHonest n :=
   ⟨rfl, rfl⟩
+
+
+/-! ### third round: functions with several results (translator v2) -/
+
+/-- the translated `getNumOfThingsFromInstr` (leaves: the two results of `GetInt64FromInstr`) is the
+model's `getNumOfThings`: error first, then the range 1..1024. -/
+theorem go_getNumOfThings_eq (op : UInt8) (param : Bytes) (instr : Int) :
+    GoFuncs.getNumOfThingsFromInstr instr ((getInt64FromInstr op param).getD 0) (getInt64FromInstr op param).isNone
+      = match getNumOfThings op param with
+        | some n => ((n : Int), true)
+        | none => (0, false) := by
+  unfold GoFuncs.getNumOfThingsFromInstr getNumOfThings
+  cases h : getInt64FromInstr op param with
+  | none => simp
+  | some n =>
+    simp only [Option.getD_some, Option.isNone_some, Bool.false_eq_true, if_false]
+    by_cases c : n < 1 ∨ 1024 < n
+    · have c' : n < 1 ∨ n > 1024 := by omega
+      simp [c, c']
+    · have c' : ¬ (n < 1 ∨ n > 1024) := by omega
+      simp only [c, c', if_false]
+      congr 1
+      omega
+
+/-- the translated `GetBigIntFromInstr` chooses its branch exactly as the model's `getBigIntFromInstr`. -/
+theorem go_getBigIntFromInstr_eq (op : UInt8) (param : Bytes) :
+    GoFuncs.getBigIntFromInstr (op.toNat : Int) ((op.toNat : Int) - 16) (fromBytes param)
+      = match getBigIntFromInstr op param with
+        | some v => (v, "ok")
+        | none => (0, "err") := by
+  unfold GoFuncs.getBigIntFromInstr getBigIntFromInstr
+  have h15 : opPUSHM1.toNat = 15 := rfl
+  have h32 : opPUSH16.toNat = 32 := rfl
+  have h5 : opPUSHINT256.toNat = 5 := rfl
+  simp only [h15, h32, h5]
+  by_cases c1 : 15 ≤ op.toNat ∧ op.toNat ≤ 32
+  · have c1' : (15 : Int) ≤ (op.toNat : Int) ∧ (op.toNat : Int) ≤ 32 := by omega
+    simp [c1, c1']
+  · have c1' : ¬ ((15 : Int) ≤ (op.toNat : Int) ∧ (op.toNat : Int) ≤ 32) := by omega
+    by_cases c2 : op.toNat ≤ 5
+    · have c2' : (op.toNat : Int) ≤ 5 := by omega
+      simp [c1, c1', c2, c2']
+    · have c2' : ¬ ((op.toNat : Int) ≤ 5) := by omega
+      simp [c1, c1', c2, c2']
+
+/-- the translated `smallInt` writes an opcode exactly when the model's `smallInt` does (−1 and 0..15). -/
+theorem go_smallInt_eq (i : Int) :
+    (GoFuncs.emitSmallInt i).1 = (smallInt i).isSome ∧
+    ((GoFuncs.emitSmallInt i).2 = if (smallInt i).isSome then ["Opcodes"] else []) := by
+  unfold GoFuncs.emitSmallInt smallInt
+  by_cases c1 : i = -1
+  · simp [c1]
+  · by_cases c2 : 0 ≤ i ∧ i < 16
+    · have c2' : i ≥ 0 ∧ i < 16 := by omega
+      simp [c1, c2, c2']
+    · have c2' : ¬ (i ≥ 0 ∧ i < 16) := by omega
+      simp [c1, c2, c2']
+
+/-- the translated `emit.Bytes` takes the PUSHDATA1 / PUSHDATA2 / PUSHDATA4 branch exactly where the
+model's `emitBytes` does (length below 256, below 65536, otherwise). -/
+theorem go_emitBytes_eq (b : Bytes) (m2 m4 : Int) :
+    GoFuncs.emitBytes (b.length : Int) m2 m4 =
+      (if b.length < 0x100 then ["Instruction", "w.WriteBytes"]
+       else if b.length < 0x10000 then ["binary.LittleEndian.PutUint16", "Instruction", "w.WriteBytes"]
+       else ["binary.LittleEndian.PutUint32", "Instruction", "w.WriteBytes"]) ∧
+    (emitBytes b).head? = some (if b.length < 0x100 then opPUSHDATA1 else if b.length < 0x10000 then opPUSHDATA2 else opPUSHDATA4) := by
+  unfold GoFuncs.emitBytes emitBytes
+  by_cases c1 : b.length < 0x100
+  · have : ((b.length : Int) < 256) := by omega
+    simp [c1, this]
+  · have c1' : ¬ ((b.length : Int) < 256) := by omega
+    by_cases c2 : b.length < 0x10000
+    · have : ((b.length : Int) < 65536) := by omega
+      simp [c1, c1', c2, this]
+    · have : ¬ ((b.length : Int) < 65536) := by omega
+      simp [c1, c1', c2, this]
+
+/-- the translated `DecodeBytes`: an error of `DecodeBinary` first, then "extra data". -/
+theorem go_decodeBytes_eq (rdr : Int) (err : Bool) (left : Nat) :
+    (GoFuncs.publicKeyDecodeBytes rdr err (left : Int)).1 = (if err || left != 0 then "err" else "ok") := by
+  unfold GoFuncs.publicKeyDecodeBytes
+  cases err
+  · by_cases h : left = 0
+    · subst h; simp
+    · have : ¬ ((left : Int) = 0) := by omega
+      simp [h, this]
+  · simp
+
+/-- the translated `NewPublicKeyFromBytes`: the cached key is returned only if it was decoded for the
+requested curve; otherwise the bytes are decoded for that curve and (on success only) cached. -/
+theorem go_newPublicKeyFromBytes_eq (cachedCurve cached : Int) (hit : Bool) (curve fresh : Int) (decErr : Bool) :
+    GoFuncs.newPublicKeyFromBytes cachedCurve cached hit curve fresh decErr =
+      if hit = true ∧ cachedCurve = curve then (cached, "ok", cachedCurve, [])
+      else if decErr = true then (0, "pubKey_DecodeBytes_b_err", curve, [])
+      else (fresh, "ok", curve, ["keycache.Add"]) := by
+  unfold GoFuncs.newPublicKeyFromBytes
+  by_cases c1 : hit = true ∧ cachedCurve = curve
+  · simp [c1]
+  · simp only [c1, if_false]
+    cases decErr <;> simp
+
+/-- the translated `NewPrivateKeyFromBytes` fails exactly when the model's `privFromBytes` does. -/
+theorem go_newPrivateKeyFromBytes_eq (b : Bytes) (c d x y k : Int) :
+    (GoFuncs.newPrivateKeyFromBytes (b.length : Int) c d x y k).2 = (if (privFromBytes b).isSome then "ok" else "err") := by
+  unfold GoFuncs.newPrivateKeyFromBytes privFromBytes
+  by_cases h : b.length = 32
+  · simp [h]
+  · have : ¬ ((b.length : Int) = 32) := by omega
+    simp [h, this]
+
+theorem go_uint160DecodeBytesBE_eq (b : Bytes) (u v : Int) :
+    (GoFuncs.uint160DecodeBytesBE (b.length : Int) u v).2 = (if (uDecodeBytesBE 20 b).isSome then "ok" else "err") := by
+  unfold GoFuncs.uint160DecodeBytesBE uDecodeBytesBE
+  by_cases h : b.length = 20
+  · simp [h]
+  · have : ¬ ((b.length : Int) = 20) := by omega
+    simp [h, this]
+
+/-- the translated `fixedn.FromString` succeeds exactly when the model's `decFromString` does: the
+check order (integer part, one part only, fraction length against the precision, fraction text) with
+the leaves taken from the model's own pieces. -/
+theorem go_fromString_eq (s p0 : Bytes) (p1? : Option Bytes) (hsp : splitDot s = (p0, p1?)) (p : Nat)
+    (parts bi fp sub add : Int) :
+    (GoFuncs.fixednFromString (p : Int) parts bi (parseInt10 p0).isSome (if p1?.isSome then 2 else 1)
+        (((p1?.getD []).length : Nat) : Int) fp (parseInt10 (p1?.getD [])).isSome (p0.head? == some chMinus) sub add).2.1
+      = (if (decFromString s p).isSome then "ok" else "ErrInvalidFormat") := by
+  unfold GoFuncs.fixednFromString decFromString
+  rw [hsp]
+  simp only
+  cases hz : parseInt10 p0 with
+  | none => simp
+  | some z =>
+    cases p1? with
+    | none => simp
+    | some p1 =>
+      simp only [Option.isSome_some, if_true, Option.getD_some, Bool.not_eq_true, Bool.true_eq_false, if_false]
+      by_cases hl : p < p1.length
+      · have : ((p1.length : Int) > (p : Int)) := by omega
+        simp [hl, this]
+      · have : ¬ ((p1.length : Int) > (p : Int)) := by omega
+        simp only [hl, this, if_false]
+        cases hf : parseInt10 p1 with
+        | none => simp
+        | some f =>
+          simp only [Option.isSome_some, Bool.true_eq_false, if_false]
+          simp only [not_true_eq_false, if_false]
+          split <;> split <;> simp_all
+
+theorem natCmp_ge (a b : Nat) : (natCmp a b ≥ 0) ↔ b ≤ a := by
+  unfold natCmp; split <;> (try split) <;> omega
+
+theorem u8_toNat_eq (p : UInt8) (n : Nat) (hn : n < 256) : ((p.toNat : Int) % 256 = (n : Int)) ↔ p = UInt8.ofNat n := by
+  have := p.toNat_lt
+  constructor
+  · intro h
+    apply UInt8.toNat_inj.mp
+    have : p.toNat = n := by omega
+    rw [this]; simp [UInt8.toNat_ofNat']; omega
+  · intro h; subst h; simp [UInt8.toNat_ofNat']; omega
+
+/-- the translated `DecodeBinary` on a compressed-length input (prefix byte + 32 bytes, all reads succeed):
+same prefix switch, same order (square root, then the range test `Cmp(P) >= 0` on X and Y) and same
+result as the model's `decodePub`. The leaves are instantiated with the model's own pieces. -/
+theorem go_decodeBinary_compressed (C : CurveP) (pfx : UInt8) (rest : Bytes) (hl : rest.length = 32) (h4 : pfx ≠ 4)
+    (curveId p256 params mk pX pY yb : Int) (oc : Bool) (x : Nat) (dy : Option Nat)
+    (hx : x = beVal rest) (hdy : dy = decodeCompressedY C (beVal rest) (pfx.toNat % 2)) :
+    decodePub C (pfx :: rest) =
+      (let r := GoFuncs.publicKeyDecodeBinary curveId false pX pY (pfx.toNat : Int) false p256 params true mk (x : Int)
+        ((dy.getD 0 : Nat) : Int) dy.isNone (natCmp x C.P) (natCmp (dy.getD 0) C.P) true yb oc true true
+       if r.2.1 then none else some (r.2.2.1.toNat, r.2.2.2.1.toNat)) := by
+  subst hx
+  have ht : rest.take 32 = rest := by rw [← hl, List.take_length]
+  have e0 := u8_toNat_eq pfx 0 (by omega)
+  have e2 := u8_toNat_eq pfx 2 (by omega)
+  have e3 := u8_toNat_eq pfx 3 (by omega)
+  have e4 := u8_toNat_eq pfx 4 (by omega)
+  have f0 : UInt8.ofNat 0 = (0 : UInt8) := rfl
+  have f2 : UInt8.ofNat 2 = (2 : UInt8) := rfl
+  have f3 : UInt8.ofNat 3 = (3 : UInt8) := rfl
+  have f4 : UInt8.ofNat 4 = (4 : UInt8) := rfl
+  rw [f0] at e0; rw [f2] at e2; rw [f3] at e3; rw [f4] at e4
+  simp only [GoFuncs.publicKeyDecodeBinary, decodePub, Bool.false_eq_true, if_false, hl, ht, Nat.lt_irrefl,
+    bne_self_eq_false]
+  by_cases c0 : pfx = 0
+  · subst c0; simp
+  · have c0' : ¬ ((pfx.toNat : Int) % 256 = 0) := fun h => c0 (e0.mp h)
+    have c0b : (pfx == 0x00) = false := by simpa using c0
+    by_cases c23 : pfx = 2 ∨ pfx = 3
+    · have c23' : ((pfx.toNat : Int) % 256 = 2) ∨ ((pfx.toNat : Int) % 256 = 3) := by
+        rcases c23 with h | h
+        · exact Or.inl (e2.mpr h)
+        · exact Or.inr (e3.mpr h)
+      have c23b : (pfx == 0x02 || pfx == 0x03) = true := by
+        rcases c23 with h | h <;> simp [h]
+      simp only [c0', if_false, c23', if_true, c0b, Bool.false_eq_true, c23b]
+      rw [← hdy]
+      cases dy with
+      | none => simp
+      | some y =>
+        simp only [Option.isNone_some, Bool.false_eq_true, if_false, Option.getD_some, natCmp_ge]
+        by_cases cr : C.P ≤ beVal rest ∨ C.P ≤ y
+        · simp [cr]
+        · simp [cr]
+    · have c2' : ¬ ((pfx.toNat : Int) % 256 = 2) := fun h => c23 (Or.inl (e2.mp h))
+      have c3' : ¬ ((pfx.toNat : Int) % 256 = 3) := fun h => c23 (Or.inr (e3.mp h))
+      have c4' : ¬ ((pfx.toNat : Int) % 256 = 4) := fun h => h4 (e4.mp h)
+      have c23b : (pfx == 0x02 || pfx == 0x03) = false := by
+        have : ¬ pfx = 2 ∧ ¬ pfx = 3 := by
+          constructor <;> intro h <;> exact c23 (by simp [h])
+        simp [this.1, this.2]
+      have c4b : (pfx == 0x04) = false := by simpa using h4
+      simp [c0', c2', c3', c4', c0b, c23b, c4b]
+
+/-- … and on an uncompressed-length input (prefix byte + 64 bytes): `IsOnCurve` first, then the range test. -/
+theorem go_decodeBinary_uncompressed (C : CurveP) (pfx : UInt8) (rest : Bytes) (hl : rest.length = 64)
+    (h2 : pfx ≠ 2) (h3 : pfx ≠ 3) (curveId p256 params mk pX pY : Int) (dy0 : Int) (dyErr : Bool) :
+    decodePub C (pfx :: rest) =
+      (let x := beVal (rest.take 32)
+       let y := beVal ((rest.drop 32).take 32)
+       let r := GoFuncs.publicKeyDecodeBinary curveId false pX pY (pfx.toNat : Int) false p256 params true mk (x : Int)
+        dy0 dyErr (natCmp x C.P) (natCmp y C.P) true (y : Int) (onCurve C x y) true true
+       if r.2.1 then none else some (r.2.2.1.toNat, r.2.2.2.1.toNat)) := by
+  have e0 := u8_toNat_eq pfx 0 (by omega)
+  have e2 := u8_toNat_eq pfx 2 (by omega)
+  have e3 := u8_toNat_eq pfx 3 (by omega)
+  have e4 := u8_toNat_eq pfx 4 (by omega)
+  have f0 : UInt8.ofNat 0 = (0 : UInt8) := rfl
+  have f2 : UInt8.ofNat 2 = (2 : UInt8) := rfl
+  have f3 : UInt8.ofNat 3 = (3 : UInt8) := rfl
+  have f4 : UInt8.ofNat 4 = (4 : UInt8) := rfl
+  rw [f0] at e0; rw [f2] at e2; rw [f3] at e3; rw [f4] at e4
+  have c2' : ¬ ((pfx.toNat : Int) % 256 = 2) := fun h => h2 (e2.mp h)
+  have c3' : ¬ ((pfx.toNat : Int) % 256 = 3) := fun h => h3 (e3.mp h)
+  have c23b : (pfx == 0x02 || pfx == 0x03) = false := by simp [h2, h3]
+  simp only [GoFuncs.publicKeyDecodeBinary, decodePub, Bool.false_eq_true, if_false, hl, Nat.lt_irrefl,
+    bne_self_eq_false, c2', c3', c23b, or_self]
+  by_cases c0 : pfx = 0
+  · subst c0; simp
+  · have c0' : ¬ ((pfx.toNat : Int) % 256 = 0) := fun h => c0 (e0.mp h)
+    have c0b : (pfx == 0x00) = false := by simpa using c0
+    by_cases c4 : pfx = 4
+    · have c4' : ((pfx.toNat : Int) % 256 = 4) := e4.mpr c4
+      have c4b : (pfx == 0x04) = true := by simp [c4]
+      simp only [c0', if_false, c4', if_true, c0b, Bool.false_eq_true, c4b, natCmp_ge]
+      cases hoc : onCurve C (beVal (rest.take 32)) (beVal ((rest.drop 32).take 32))
+      · simp
+      · simp only [Bool.not_true, Bool.false_eq_true, if_false, not_true_eq_false]
+        by_cases cr : C.P ≤ beVal (rest.take 32) ∨ C.P ≤ beVal ((rest.drop 32).take 32)
+        · simp [cr]
+        · simp [cr]
+    · have c4' : ¬ ((pfx.toNat : Int) % 256 = 4) := fun h => c4 (e4.mp h)
+      have c4b : (pfx == 0x04) = false := by simpa using c4
+      simp [c0', c4', c0b, c4b]
 
 end NeoModel.Codec
